@@ -182,8 +182,9 @@ def judge_one(case, ob):
     elif kind == "again":
         for u in (0, 1):
             t0 = 0 if u == 0 else case["o"] * MS
-            got = [(int(r[1]), r[5][0]) for r in ob["ev"] if r[3] == "cb" and int(r[4]) == u]
-            want = [(t0 + (i + 1) * d, "n") for i in range(case["n"])] + [(t0 + case["n"] * d, "c")]
+            isint = case["n"] == 2      # interval: EACH subscription counts its own ticks from 0
+            got = [(int(r[1]), r[5][0]) + ((str(r[5][1]),) if isint and r[5][0] == "n" else ()) for r in ob["ev"] if r[3] == "cb" and int(r[4]) == u]
+            want = [(t0 + (i + 1) * d, "n") + ((str(i),) if isint else ()) for i in range(case["n"])] + [(t0 + case["n"] * d, "c")]
             if got != want:
                 bad.append("subscription %d (made at %d ms) of the shared timer/interval Observable received %s, expected %s" % (u, t0 // MS, got, want))
         cbs = [(int(r[1]), r[5]) for r in ob["ev"] if r[3] == "cb"]
